@@ -326,6 +326,20 @@ def run(ctx):
                                             solver_options={"time_limit": 300})
         sweep(ctx, "K3.MinFlowDecompCycles", "MinFlowDecompCycles", "timed", mk, [fp.kFlowDecompCycles],
               lambda m: ctx.model_hi("MinFlowDecompCycles", m), gdesc(G), pairs=False, timed=True)
+    # ---- directed: one walk goes round a cycle twice, a second walk has another weight; generating-set lower bound on
+    # (its own solver run is the first invocation of the search: an inconclusive one must not move the start of the k loop)
+    for it in range(ctx.n(2, 8)):
+        w1 = rng.choice([1, 2]); w2 = rng.choice([3, 5, 7]); r = rng.choice([2, 2, 3])
+        G = nx.DiGraph()
+        es = [("s", "c", w1), ("c", "d", r * w1), ("d", "c", (r - 1) * w1), ("d", "t", w1), ("s", "e", w2), ("e", "t", w2)]
+        rng.shuffle(es)
+        for u, v, f in es:
+            G.add_edge(u, v, flow=f)
+        copts = {"use_min_gen_set_lowerbound": True}
+        mk = lambda: fp.MinFlowDecompCycles(G, flow_attr="flow", weight_type=int, optimization_options=dict(copts),
+                                            solver_options={"time_limit": 300})
+        sweep(ctx, "K3.MinFlowDecompCycles", "MinFlowDecompCycles", "timed", mk, [fp.kFlowDecompCycles],
+              lambda m: ctx.model_hi("MinFlowDecompCycles", m), dict(gdesc(G), options=dict(copts)), pairs=False, timed=True)
     for it in range(ctx.n(5, 30)):
         G = cyc_input(rng)
         mk = lambda: fp.MinPathCoverCycles(G, solver_options={"time_limit": 300})
@@ -335,6 +349,8 @@ def run(ctx):
     run_npo(ctx)
     run_getters(ctx)
     run_resolve(ctx)
+    run_solver_config(ctx)
+    large_objective_cases(ctx, ctx.n(12, 150))
 
 
 def run_mgs(ctx):
@@ -564,9 +580,85 @@ def run_resolve(ctx):
                               f"data={got}", case, site="MinSetCover.solve")
 
 
+GAP_OPTIONS = ["mip_rel_gap", "mip_abs_gap"]
+
+
+def run_solver_config(ctx, suite="K3.solver_config"):
+    """'kOptimal = proven optimal' is HiGHS's contract only up to its gap options. The models (FP/Model/Search.lean: status
+    optimal) read it as 'optimal within the wrapper's tolerance', so the options in force WHEN optimize() runs must not be
+    looser than that tolerance (tighter is fine)."""
+    fp = ctx.fp
+    SW = fp.utils.solverwrapper.SolverWrapper
+    for kw in ({}, {"tolerance": 1e-6}, {"tolerance": 1e-9, "time_limit": 50, "threads": 1}):
+        sw = SW(**kw)
+        x = sw.add_variables([0, 1], name_prefix="x", lb=0, ub=3, var_type="integer")
+        sw.set_objective(sum(x[i] for i in x), sense="minimize")
+        sw.optimize()
+        tol = kw.get("tolerance", SW.tolerance)
+        got = {}
+        for name in GAP_OPTIONS + ["mip_feasibility_tolerance", "primal_feasibility_tolerance"]:
+            r = sw.solver.getOptionValue(name)
+            got[name] = r[1] if isinstance(r, tuple) else r
+        case = {"solver_options": {k: v for k, v in kw.items()}, "tolerance": tol, "in_force": got}
+        ctx.rep.count(suite, case, nontrivial=True, hist=["tolerance=%g" % tol])
+        ctx.rep.cov["traces_validated_against_impl"] += 1
+        loose = {n: v for n, v in got.items() if not (isinstance(v, (int, float)) and v <= tol * (1 + 1e-12))}
+        if loose:
+            ctx.disagree(suite, case, {"looser_than_tolerance": loose}, {"assumed_at_most": tol},
+                         note="HiGHS stops as soon as one gap criterion holds: kOptimal is then reported without optimality "
+                              "proven at the wrapper's tolerance")
+
+
+def setcover_bruteforce(universe, subsets, weights):
+    best = None
+    n = len(subsets)
+    for mask in range(1, 1 << n):
+        cov = set()
+        w = 0
+        for i in range(n):
+            if mask >> i & 1:
+                cov |= set(subsets[i]); w += weights[i]
+        if cov >= set(universe) and (best is None or w < best):
+            best = w
+    return best
+
+
+def large_objective_cases(ctx, n, suite="K5.large_objective", rng=None):
+    """solved => optimal, on instances whose objective values are in the millions with near-ties (a relative gap of 1e-4
+    is then worth hundreds of units): MinSetCover against exhaustive search"""
+    fp = ctx.fp
+    rng = rng or ctx.rng
+    for it in range(n):
+        m_el = rng.randint(8, 14)
+        universe = list(range(m_el))
+        nsub = rng.randint(9, 13)
+        subsets = [sorted(rng.sample(universe, rng.randint(2, 5))) for _ in range(nsub)]
+        for e in universe:
+            if not any(e in s_ for s_ in subsets):
+                subsets[rng.randrange(nsub)].append(e)
+        weights = [1000000 + rng.randint(0, 400) for _ in subsets]
+        best = setcover_bruteforce(universe, subsets, weights)
+        try:
+            msc = fp.MinSetCover(universe=universe, subsets=subsets, subset_weights=weights)
+            ok = msc.solve()
+        except Exception as e:
+            raise
+        case = {"class": "MinSetCover", "universe": universe, "subsets": subsets, "subset_weights": weights, "optimum": best}
+        ctx.rep.count(suite, case, nontrivial=True, hist=["MinSetCover", "solved" if ok else "unsolved"])
+        ctx.rep.cov["oracle_evaluations"] += 1
+        if ok and msc.is_solved():
+            sol = msc.get_solution()
+            got = sum(weights[i] for i in sol)
+            if got != best:
+                ctx.violation(f"MinSetCover reports solved with a cover of weight {got}; exhaustive search finds {best} "
+                              f"(optimality was not proven at the wrapper's tolerance)", dict(case, returned=list(sol)),
+                              site="MinSetCover.solve:optimality")
+
+
 def search(ctx):
-    # the oracles above already ran on every injected case; nothing further to enumerate
-    return
+    # the fault-injection oracles already ran on every injected case; what is left to enumerate is the quality of
+    # 'kOptimal' itself on instances where a loose gap matters
+    large_objective_cases(ctx, 120, suite="search.large_objective", rng=random.Random(1313))
 
 
 def replay(ctx, payload):
